@@ -138,6 +138,7 @@ def main(argv):
     reached = {}
     fallback_hits = []
     per_contract = {}
+    funcs_sym = {}
     bounded_cases = bounded_clauses = 0
     bounded_samples = []
     for r in results:
@@ -150,6 +151,8 @@ def main(argv):
         solver_s += r['solver_s']
         bounded_evals += r.get('bounded_evaluations', 0)
         assumed |= set(r['assumed'])
+        for fq in r.get('funcs', ()):
+            funcs_sym[fq] = funcs_sym.get(fq, 0) + 1
         checker_errors += [(r['contract'], r['cfg'], e) for e in r['checker_errors']]
         undecided_paths += [(r['contract'], r['cfg'], u) for u in r['undecided_paths']]
         if r.get('bounded_fallback') and r['bounded_fallback'].get('failure'):
@@ -284,7 +287,9 @@ def main(argv):
                          'assumed contracts of NumPy %s / builtins (fxpv.npc, fxpv.pyc), cross-checked concolically on every path and differentially validated before each run (fxpv.validate: %d comparisons against the installed NumPy on constant-symbolic data, 0 disagreements)' % (__import__('numpy').__version__, nv),
                          'float64 treated as exact rational arithmetic under proved side conditions (FP-exact)',
                          'z3 %s, cvc5 (fallback)' % __import__('z3').get_version_string(), 'the fxpv explorer'],
-        'functions_under_contract': sorted(per_contract), 'per_contract': per_contract, 'configs': len(tasks), 'paths': paths,
+        'functions_under_contract': sorted(per_contract), 'per_contract': per_contract,
+        'repo_functions_executed_symbolically': {k: funcs_sym[k] for k in sorted(funcs_sym)},
+        'repo_functions_executed_note': 'real functions of /repo/fxpmath/{utils,objects,functions}.py whose (T1-T7 transformed) bodies ran on symbolic data inside at least one contract of this check, with the number of configurations that entered them (T7 entry records); %d of the %d functions defined in those files were entered; functions reached only by bounded (native) contracts are not listed' % (len(funcs_sym), len(loader.ALL_FUNCTIONS)), 'configs': len(tasks), 'paths': paths,
         'backend': backend, 'solver_s': round(solver_s, 2), 'slowest_obligation': slowest,
         'undecided_obligations': undecided, 'undecided_paths': len(undecided_paths),
         'undecided_samples': [{'contract': a, 'config': b, 'why': c_} for a, b, c_ in undecided_paths[:5]] + undecided_obl,
